@@ -8,6 +8,7 @@ import CookModel.Lemmas.ExtLawsLocal
 import CookModel.Lemmas.ExtLawsSingle
 import CookModel.Lemmas.ExtLawsValue
 import CookModel.Lemmas.C02Lift
+import CookModel.Lemmas.W7ReauditA
 import CookModel.Lemmas.C02LiftMeta
 import CookModel.Lemmas.LexLaws
 import CookModel.Lemmas.TableFacts
@@ -1130,5 +1131,97 @@ theorem C02_advanced_local_parse_default_modes_real (env : Env) (hreal : env.cs 
     (hev : (pullEvents (α := α) env.cs env.ext input).1.toList.all (advEvCore env true) = true) :
     parseRecipe (α := α) (env.withExt e) input = parseRecipe env input :=
   C02_advanced_local_parse_default_modes env (hws := hreal ▸ tbl_uws_sp) e input ha h hm hev
+
+-- ===== w7reauditA =====
+/-! ### wave 7, seed audit (notes/audit-C02.md "Seed audit"): statements that the seeded changes C02-3, C02-7,
+    C02-8 (and C02-2) violate and that no earlier theorem of this file stated -/
+
+/-- **INTERMEDIATE_PREPARATIONS off, the converse clause (1): `modifiers()`.**  With COMPONENT_MODIFIERS on and
+    INTERMEDIATE_PREPARATIONS off, `modifiers()` returns EXACTLY the run of modifier characters `@ ? + - &` at the
+    cursor (`w7aModRun`: the longest such prefix of the remaining tokens) and moves the cursor behind it; nothing
+    else of the parser state changes.  So a `( … )` group after `&` is never swallowed: in `@&(1)dough{}` the
+    modifier is `&` and the name starts at `(`.  (A `modifiers()` that skips the group whatever the flag says —
+    seeds C02-8, C03-8 — or a flag test by `intersects` — seed C02-3 — violates this.) -/
+theorem C02_intermediate_off (s : BP α) (hon : s.ext.has Gen.EXT_COMPONENT_MODIFIERS = true)
+    (hoff : s.ext.has Gen.EXT_INTERMEDIATE_PREPARATIONS = false) :
+    modifiersP s = (w7aModRun s, { s with cur := s.cur + (w7aModRun s).length }) :=
+  w7a_modifiersP_inter_off s hon hoff
+
+/-- **INTERMEDIATE_PREPARATIONS off, the converse clause (2): `parse_modifiers`.**  With the flag off no
+    component gets intermediate-reference data, whatever its modifier tokens are (any token list, any state). -/
+theorem C02_intermediate_off_no_target (mtoks : List Tok) (pos : Nat) (s : BP α)
+    (hoff : s.ext.has Gen.EXT_INTERMEDIATE_PREPARATIONS = false) :
+    (parseModifiers mtoks pos s).1.inter = none :=
+  w7a_parseModifiers_inter_off mtoks pos s hoff
+
+/-- `@&(1)dough{}` under `{COMPONENT_MODIFIERS}`, cursor after the `@`: the hypotheses hold and the run of
+    modifier characters is the single `&` -/
+example : let s : BP Rat := ⟨[⟨.at, ['@'], 0⟩, ⟨.and, ['&'], 1⟩, ⟨.openParen, ['('], 2⟩, ⟨.int, ['1'], 3⟩,
+      ⟨.closeParen, [')'], 4⟩, ⟨.word, ['d','o','u','g','h'], 5⟩, ⟨.openBrace, ['{'], 10⟩, ⟨.closeBrace, ['}'], 11⟩],
+      1, ⟨Gen.EXT_COMPONENT_MODIFIERS⟩, toyCharSpec, #[], none⟩
+    s.ext.has Gen.EXT_COMPONENT_MODIFIERS = true ∧ s.ext.has Gen.EXT_INTERMEDIATE_PREPARATIONS = false ∧
+    (w7aModRun s).map (·.kind) = [.and] := by decide
+
+/-- **Parsing does not change the extension set.**  From any good state (no panic, cursor inside the block, the
+    block a non-empty run of adjacent lexer tokens) each of the three component parsers, `parse_step`,
+    `parse_text_block` and `parse_block` leaves `extensions` as it found it (succeeding or not) — so the set the
+    caller configured is the set every later component of the block is read with.  (A component parser that
+    switches a flag off around a sub-parse and then switches it ON unconditionally — seed C02-7 — violates this;
+    the gate theorems `C02_*_off` speak about one call and could not see it.) -/
+theorem C02_parser_keeps_extensions (s : BP α) (hp : s.panic = none) (hc : s.cur ≤ s.toks.length)
+    (off : Nat) (hch : Chain off s.toks) (he : EscapedOK s.toks) (hne : s.toks ≠ []) :
+    (∀ p ∈ [ingredientP (α := α), cookwareP, timerP], (p s).2.ext = s.ext) ∧
+    (parseStep s).2.ext = s.ext ∧ (parseTextBlock s).2.ext = s.ext ∧
+    ∀ oldStyle, (parseBlock oldStyle s).2.ext = s.ext := by
+  have g : G s.toks s.ext s := ⟨rfl, rfl, hp, hc⟩
+  have hw := WF.of_chain hch he hne
+  refine ⟨?_, (parseStep_sat hw g).1.ext, (parseTextBlock_sat hw g).1.ext,
+    fun o => (parseBlock_sat o hw g).1.ext⟩
+  intro p hpm
+  simp only [List.mem_cons, List.mem_nil_iff, or_false] at hpm
+  rcases hpm with rfl | rfl | rfl
+  · exact (ingredientP_sat hw g).1.ext
+  · exact (cookwareP_sat hw g).1.ext
+  · exact (timerP_sat hw g).1.ext
+
+/-- … and so does `parse_quantity` on the tokens between the braces -/
+theorem C02_quantity_keeps_extensions (s : BP α) (hp : s.panic = none) (hc : s.cur ≤ s.toks.length)
+    (q : List Tok) (off : Nat) (hq : Chain off q) (he : EscapedOK q) (hne : q ≠ []) :
+    (parseQuantity q s).2.ext = s.ext := by
+  have g : G s.toks s.ext s := ⟨rfl, rfl, hp, hc⟩
+  exact (parseQuantity_sat (WF.of_chain hq he hne) g).1.ext
+
+/-- the hypotheses are satisfiable: the block `#pan{2}` from its start, under `Extensions::empty()` -/
+example : let s : BP Rat := ⟨[⟨.hash, ['#'], 0⟩, ⟨.word, ['p','a','n'], 1⟩, ⟨.openBrace, ['{'], 4⟩, ⟨.int, ['2'], 5⟩,
+      ⟨.closeBrace, ['}'], 6⟩], 0, ⟨0⟩, toyCharSpec, #[], none⟩
+    s.panic = none ∧ s.cur ≤ s.toks.length ∧ Chain 0 s.toks ∧ EscapedOK s.toks ∧ s.toks ≠ [] := by
+  intro s
+  refine ⟨rfl, by decide, ⟨rfl, rfl, rfl, rfl, rfl, trivial⟩, ?_, by simp [s]⟩
+  intro t ht hk
+  simp only [s, List.mem_cons, List.mem_nil_iff, or_false] at ht
+  rcases ht with rfl | rfl | rfl | rfl | rfl <;> cases hk
+
+/-- **RANGE_VALUES off, the converse clause at `parse_quantity`.**  With RANGE_VALUES off NO quantity has a range
+    value: for every token list between the braces, every parser state and all other extension bits — in
+    particular with ADVANCED_UNITS on, where the value goes through `parse_advanced_quantity` and not through
+    `parse_value` — the value `parse_quantity` returns is a number or a text, never `Value::Range`
+    (`Value.notRange`).  `C02_range_off` / `C02_disabled_value_is_text` said this of `range_value` and `parse_value`
+    only; a `parse_advanced_quantity` that looks for a range without asking the flag (seed C02-2: `{2-3 l}` under
+    `{ADVANCED_UNITS}`) satisfied both and violates this. -/
+theorem C02_range_off_quantity (q : List Tok) (s : BP α) (hoff : s.ext.has Gen.EXT_RANGE_VALUES = false) :
+    Value.notRange (parseQuantity q s).1.quantity.val.value.value.val :=
+  w7a_parseQuantity_no_range q s hoff
+
+/-- `{2-3 l}` under `{ADVANCED_UNITS}` (RANGE_VALUES off): the hypothesis holds; the advanced parser declines
+    (`2-3` is not numeric) and the regular one returns the text value `2-3 l` without unit.  Under
+    `{ADVANCED_UNITS, RANGE_VALUES}` the same tokens give a range with unit `l`: the flag is what decides. -/
+example : let q : List Tok := [⟨.int, ['2'], 0⟩, ⟨.minus, ['-'], 1⟩, ⟨.int, ['3'], 2⟩, ⟨.ws, [' '], 3⟩, ⟨.word, ['l'], 4⟩]
+    let s : BP Rat := ⟨q, 0, ⟨Gen.EXT_ADVANCED_UNITS⟩, toyCharSpec, #[], none⟩
+    let s2 : BP Rat := ⟨q, 0, ⟨Gen.EXT_ADVANCED_UNITS ||| Gen.EXT_RANGE_VALUES⟩, toyCharSpec, #[], none⟩
+    s.ext.has Gen.EXT_RANGE_VALUES = false ∧
+    (parseQuantity q s).1.quantity.val.value.value.val = .text ['2', '-', '3', ' ', 'l'] ∧
+    (parseQuantity q s).1.quantity.val.unit = none ∧
+    (match (parseQuantity q s2).1.quantity.val.value.value.val with | .range _ _ => true | _ => false) = true := by
+  decide
 
 end Cook
